@@ -61,9 +61,11 @@ def main(argv=None):
     work = [(k, s, a.tier, seed) for k, s in jobs]
     # biggest jobs first
     work.sort(key=lambda w: -w[1].get("cost", 1))
-    ctx = mp.get_context("fork")
-    with ctx.Pool(min(a.jobs, max(1, len(work)))) as pool:
-        results = pool.map(_job, work, chunksize=1)
+    from concurrent.futures import ProcessPoolExecutor
+
+    # non-daemonic workers: a function job forks its own small pool to discharge its obligations
+    with ProcessPoolExecutor(max_workers=min(a.jobs, max(1, len(work))), mp_context=mp.get_context("fork")) as pool:
+        results = list(pool.map(_job, work))
     from vf.report import finish
 
     return finish(a.prop, prop, a.tier, seed, results, time.time() - t0)
